@@ -1672,8 +1672,21 @@ def _normalize_einsum_in_subscript(subscript: str,
     index_to_axis_length_dict = dict(index_to_axis_length)
     index_to_descr_dict = dict(index_to_descr)
 
+    index_to_len_in_this_operand: dict[str, ShapeComponent] = {}
+
     for iaxis, index_char in enumerate(normalized_indices):
         in_axis_len = in_operand.shape[iaxis]
+        if index_char in index_to_len_in_this_operand:
+            # axes of one operand sharing an index (a diagonal) do not
+            # broadcast against each other
+            if not are_shape_components_equal(
+                    in_axis_len, index_to_len_in_this_operand[index_char]):
+                raise ValueError("Got conflicting lengths for"
+                                 f" '{index_char}' in '{subscript}' -- "
+                                 f"{index_to_len_in_this_operand[index_char]},"
+                                 f" {in_axis_len}.")
+        else:
+            index_to_len_in_this_operand[index_char] = in_axis_len
         if index_char in index_to_descr_dict:
             if index_char in index_to_axis_length_dict:
                 seen_axis_len = index_to_axis_length_dict[index_char]
